@@ -166,6 +166,15 @@ func (e *Engine) contractFor(fn *ssa.Function) *FuncContract {
 	if c, ok := e.contracts.Funcs["::"+fn.String()]; ok {
 		return c
 	}
+	// contracts for external functions written in a package's contract file under their full name
+	if !e.inModule(fn) {
+		full := fn.String()
+		for k, c := range e.contracts.Funcs {
+			if strings.HasSuffix(k, "::"+full) {
+				return c
+			}
+		}
+	}
 	// wildcard contracts of the function's package, in file order
 	if root.Pkg != nil {
 		rel := fn.RelString(root.Pkg.Pkg)
